@@ -5,6 +5,8 @@ use crate::core::{Ctx, Report};
 pub mod c01;
 pub mod c04;
 pub mod c05;
+pub mod c10;
+pub mod c11;
 pub mod c13;
 pub mod c17;
 pub mod c18;
@@ -20,6 +22,7 @@ pub mod c32;
 pub mod c36;
 pub mod df;
 pub mod projgen;
+pub mod robust_worker;
 
 #[path = "../gen_synth.rs"]
 pub mod gen_synth;
@@ -37,6 +40,8 @@ pub fn registry() -> Vec<(&'static str, CheckFn)> {
         ("C01", c01::run as CheckFn),
         ("C04", c04::run as CheckFn),
         ("C05", c05::run as CheckFn),
+        ("C10", c10::run as CheckFn),
+        ("C11", c11::run as CheckFn),
         ("C13", c13::run as CheckFn),
         ("C17", c17::run as CheckFn),
         ("C18", c18::run as CheckFn),
@@ -65,6 +70,8 @@ pub fn replay(path: &str) -> i32 {
     match doc["property"].as_str().unwrap_or("") {
         "C01" => c01::replay(&doc),
         "C04" => c04::replay(&doc),
+        "C10" => c10::replay(&doc),
+        "C11" => c11::replay(&doc),
         "C13" => c13::replay(&doc),
         "C17" => c17::replay(&doc),
         "C18" => c18::replay(&doc),
@@ -89,6 +96,17 @@ pub fn worker(args: &[String]) -> i32 {
     match args.first().map(|x| x.as_str()) {
         Some("c31") => c31::worker(&args[1..]),
         Some("synth-probe") => c19::probe(&args[1..]),
+        Some(kind @ ("parse" | "full" | "multi")) => {
+            let (Some(inp), Some(outp)) = (args.get(1), args.get(2)) else {
+                eprintln!("usage: vmc worker <kind> <in.json> <out.txt>");
+                return 2;
+            };
+            match kind {
+                "parse" => robust_worker::worker_loop(inp, outp, c10::worker_fn),
+                "full" => robust_worker::worker_loop(inp, outp, c11::worker_fn),
+                _ => robust_worker::worker_loop(inp, outp, c11::worker_multi),
+            }
+        }
         _ => {
             eprintln!("unknown worker");
             2
